@@ -34,6 +34,7 @@ pub fn any_short_log() -> VLog {
 #[kani::proof]
 #[kani::stub(std_catch_unwind, cu)]
 #[kani::stub(tracing::level_filters::LevelFilter::current, stub_level_off)]
+#[kani::stub(tracing::callsite::DefaultCallsite::register, stub_callsite_register)]
 #[kani::stub(std::hash::RandomState::new, stub_random_state_new)]
 #[kani::unwind(2)]
 pub fn c01_vote_kernel() {
@@ -166,6 +167,7 @@ fn majority_oracle(o: &BroadcastOutcome) {
 #[kani::proof]
 #[kani::stub(std_catch_unwind, cu)]
 #[kani::stub(tracing::level_filters::LevelFilter::current, stub_level_off)]
+#[kani::stub(tracing::callsite::DefaultCallsite::register, stub_callsite_register)]
 #[kani::stub(std::hash::RandomState::new, stub_random_state_new)]
 #[kani::stub(std::fmt::format, stub_format)]
 #[kani::unwind(2)]
@@ -176,6 +178,7 @@ pub fn c01_election_needs_majority_2voters() {
 #[kani::proof]
 #[kani::stub(std_catch_unwind, cu)]
 #[kani::stub(tracing::level_filters::LevelFilter::current, stub_level_off)]
+#[kani::stub(tracing::callsite::DefaultCallsite::register, stub_callsite_register)]
 #[kani::stub(std::hash::RandomState::new, stub_random_state_new)]
 #[kani::stub(std::fmt::format, stub_format)]
 #[kani::unwind(2)]
@@ -187,6 +190,7 @@ pub fn c01_election_needs_majority_3voters() {
 #[kani::proof]
 #[kani::stub(std_catch_unwind, cu)]
 #[kani::stub(tracing::level_filters::LevelFilter::current, stub_level_off)]
+#[kani::stub(tracing::callsite::DefaultCallsite::register, stub_callsite_register)]
 #[kani::stub(std::hash::RandomState::new, stub_random_state_new)]
 #[kani::stub(std::fmt::format, stub_format)]
 #[kani::unwind(2)]
@@ -198,6 +202,7 @@ pub fn c01_election_needs_majority_4voters() {
 #[kani::proof]
 #[kani::stub(std_catch_unwind, cu)]
 #[kani::stub(tracing::level_filters::LevelFilter::current, stub_level_off)]
+#[kani::stub(tracing::callsite::DefaultCallsite::register, stub_callsite_register)]
 #[kani::stub(std::hash::RandomState::new, stub_random_state_new)]
 #[kani::stub(std::fmt::format, stub_format)]
 #[kani::unwind(2)]
@@ -219,6 +224,7 @@ fn sole_voter_oracle(o: &BroadcastOutcome) {
 #[kani::proof]
 #[kani::stub(std_catch_unwind, cu)]
 #[kani::stub(tracing::level_filters::LevelFilter::current, stub_level_off)]
+#[kani::stub(tracing::callsite::DefaultCallsite::register, stub_callsite_register)]
 #[kani::stub(std::hash::RandomState::new, stub_random_state_new)]
 #[kani::stub(std::fmt::format, stub_format)]
 #[kani::unwind(2)]
@@ -230,6 +236,7 @@ pub fn c03_sole_voter_0peers() {
 #[kani::proof]
 #[kani::stub(std_catch_unwind, cu)]
 #[kani::stub(tracing::level_filters::LevelFilter::current, stub_level_off)]
+#[kani::stub(tracing::callsite::DefaultCallsite::register, stub_callsite_register)]
 #[kani::stub(std::hash::RandomState::new, stub_random_state_new)]
 #[kani::stub(std::fmt::format, stub_format)]
 #[kani::unwind(2)]
@@ -240,6 +247,7 @@ pub fn c03_sole_voter_1peer() {
 #[kani::proof]
 #[kani::stub(std_catch_unwind, cu)]
 #[kani::stub(tracing::level_filters::LevelFilter::current, stub_level_off)]
+#[kani::stub(tracing::callsite::DefaultCallsite::register, stub_callsite_register)]
 #[kani::stub(std::hash::RandomState::new, stub_random_state_new)]
 #[kani::stub(std::fmt::format, stub_format)]
 #[kani::unwind(2)]
